@@ -160,10 +160,12 @@ TEXT.update({
  },
  "C28": {
   "engine": "M",
-  "technique": "symbolic execution of the rustc MIR of the acceptor's per-context negotiation closure, choose_ts, choose_supported and trim_uid; proposal and configuration are solver-chosen from a small universe of UIDs; z3 decides every path; replay against a real acceptor over loopback",
+  "technique": "symbolic execution of the rustc MIR of the acceptor's process_a_association_rq, its per-context negotiation closure, choose_ts, choose_supported and trim_uid; proposal and configuration are solver-chosen from a small universe of UIDs; z3 decides every path; replay against a real acceptor over loopback",
   "level": "For one proposed presentation context (abstract syntax among 4 texts incl. NUL-padded; 0..2 transfer syntaxes among 4 texts incl. a padded and an unknown one) and every acceptor configuration over 2 abstract syntaxes, "
-           "3 transfer syntaxes and the promiscuous flag: the result carries the same identifier, is accepted exactly when the rules say so, with the first configured-and-supported proposed transfer syntax, else with the reason naming the failing condition.",
-  "note": "per-context rule only: one result per proposed context, rejection for protocol version / application context / access control and the requestor's maximum PDU length are not encoded; is_supported is a contract (the registry is C16's subject)",
+           "3 transfer syntaxes and the promiscuous flag: the result carries the same identifier, is accepted exactly when the rules say so, with the first configured-and-supported proposed transfer syntax, else with the reason naming the failing condition. "
+           "Whole request (MIR of process_a_association_rq): another protocol version, another application context name or refused access give an A-ASSOCIATE-RJ with the matching reason (in that order); otherwise one result per proposed context "
+           "with the same identifier in order, and the requestor's maximum PDU length is 0 -> largest supported, absent -> default, else min(value, largest).",
+  "note": "is_supported, access control and the negotiation callbacks are contracts (the registry is C16's subject); at most 2 contexts and 2 user items per request; counterexamples are replayed against a real acceptor over loopback",
  },
  "C29": {
   "engine": "M",
